@@ -37,13 +37,17 @@ def positions(sub, r):
         "fixed": {"type": "array", "items": copy.deepcopy(sub), "minItems": 2, "maxItems": 2},
         "m": {"type": "object", "additionalProperties": copy.deepcopy(sub)},
         "nullable": {"anyOf": [copy.deepcopy(sub), {"type": "null"}]},
+        # one-member wrappers that only add an annotation
+        "w_allof": {"description": "wrapped", "allOf": [copy.deepcopy(sub)]},
+        "w_oneof": {"description": "wrapped", "oneOf": [copy.deepcopy(sub)]},
+        "w_anyof": {"anyOf": [copy.deepcopy(sub)]},
         "plainmap": {"type": "object", "additionalProperties": {"type": "integer"}},
         "anymap": {"type": "object"},
         "keyedany": {"type": "object", "propertyNames": {"pattern": "^[a-z]+$"}, "additionalProperties": True},
         "patany": {"type": "object", "patternProperties": {"^x-": {}}, "additionalProperties": False},
         "keyedtyped": {"type": "object", "propertyNames": {"pattern": "^[a-z]+$"}, "additionalProperties": {"type": "integer"}},
         "nested": {"type": "object", "properties": {"deep": {"type": "array", "items": {"type": "object", "additionalProperties": copy.deepcopy(sub)}}}},
-    }, "required": ["p", "arr", "tup", "fixed", "m", "nullable"]}
+    }, "required": ["p", "arr", "tup", "fixed", "m", "nullable", "w_allof", "w_oneof", "w_anyof"]}
     enum = {"oneOf": [{"type": "string", "enum": ["Unit"]},
                       {"type": "object", "required": ["Item"], "properties": {"Item": copy.deepcopy(sub)}, "additionalProperties": False},
                       {"type": "object", "required": ["Struct"],
@@ -137,17 +141,28 @@ def syntactic(res, settings, info, rep, case):
     texts = all_type_texts(res)
     n = 0
 
-    def viol(k, site, det):
-        rep.violation(k, kind + ":" + site, det, case=case, info=info)
+    def viol(k, site, det, cause=None):
+        rep.violation(k, kind + ":" + site, dict(det, cause=cause) if cause else det, case=case, info=info, cause=cause)
 
     user = items.get(("", "User")) or {}
     ufields = {f["ident"]: norm(f["ty"]) for f in user.get("fields") or []}
     if kind in ("replace", "convert"):
-        expect_in = ["p", "opt", "arr", "tup", "fixed", "m", "nullable"]
+        expect_in = ["p", "opt", "arr", "tup", "fixed", "m", "nullable", "w_allof", "w_oneof", "w_anyof"]
         for fld in expect_in:
             n += 1
             if REPL not in ufields.get(fld, ""):
-                viol("use_site_not_substituted", "User." + fld, {"field": fld, "type": ufields.get(fld)})
+                cause = None
+                cs_ = ((settings.get("conversions") or [{}])[0].get("schema") or {}) if kind == "convert" else {}
+                ext_obj = cs_.get("type") == "object" and len(cs_.get("properties") or {}) == 1 and \
+                    cs_.get("required") == list(cs_.get("properties") or {}) and cs_.get("additionalProperties") is not False
+                ext_str = cs_.get("type") == "string" and isinstance(cs_.get("enum"), list)
+                if fld in ("w_oneof", "w_anyof") and (ext_obj or ext_str):
+                    # KF-C14-1: a one-member oneOf/anyOf around a subschema shaped like an externally tagged variant (an open
+                    # object with exactly one required member, or a string enum) is read as an enum BEFORE conversions are looked up
+                    it_ = items.get(("", ufields.get(fld, "")))
+                    if it_ and it_["kind"] == "enum":
+                        cause = "single_member_union_read_as_external_variant"
+                viol("use_site_not_substituted", "User." + fld, {"field": fld, "type": ufields.get(fld)}, cause=cause)
         choice = items.get(("", "Choice")) or {}
         for v in choice.get("variants") or []:
             if v["ident"] in ("Item", "Struct"):
@@ -199,7 +214,7 @@ def syntactic(res, settings, info, rep, case):
             if word_in(p, t) or (nm != "impl" and word_in(p, nm)):
                 viol("old_name_still_used", "%s.%s" % (nm, fld), {"type": t})
                 break
-        for fld in ["p", "opt", "arr", "tup", "fixed", "m", "nullable"]:
+        for fld in ["p", "opt", "arr", "tup", "fixed", "m", "nullable", "w_allof", "w_oneof", "w_anyof"]:
             n += 1
             if not word_in(newn, ufields.get(fld, "")):
                 viol("use_site_not_renamed", "User." + fld, {"type": ufields.get(fld)})
